@@ -1,5 +1,6 @@
 //! further case kinds, one module per family
 mod expand;
+pub mod progx;
 pub fn run_case(kind: &str, fields: Vec<String>) -> Vec<String> {
     match kind {
         // the REPL's private completeness test, through the ruschm_verif hook
@@ -8,6 +9,7 @@ pub fn run_case(kind: &str, fields: Vec<String>) -> Vec<String> {
         } else {
             "open".to_string()
         }],
+        "progx" => progx::run(fields),
         "expand" => crate::on_fresh_thread(move || expand::run(&fields)),
         _ => vec![format!("X unknown-kind {}", kind)],
     }
